@@ -159,6 +159,9 @@ class BuildSystem():
             self.box_grid = np.mgrid[0:self.box[0]:self.grid_spacing,
                                      0:self.box[1]:self.grid_spacing,
                                      0:self.box[2]:self.grid_spacing].reshape(3, -1).T
+            # due to rounding the last grid point can end up on the upper
+            # box face, which is not inside the periodic box
+            self.box_grid = self.box_grid[np.all(self.box_grid < self.box, axis=1)]
 
         # this should be done elsewhere
         topology.box = (self.box[0], self.box[1], self.box[2])
